@@ -28,9 +28,17 @@ type jTable struct {
 type jLeaf struct {
 	Tbl, Col, Op string
 	Val          any
+	// Flip: written as `constant op column` (with the mirrored operator); the meaning is the same
+	Flip bool
 }
 
-func (l jLeaf) SQL() string { return fmt.Sprintf("%s.%s %s %s", l.Tbl, l.Col, l.Op, Lit(l.Val)) }
+func (l jLeaf) SQL() string {
+	if l.Flip {
+		m := map[string]string{"=": "=", "<": ">", ">=": "<=", ">": "<", "<=": ">=", "<>": "<>"}[l.Op]
+		return fmt.Sprintf("%s %s %s.%s", Lit(l.Val), m, l.Tbl, l.Col)
+	}
+	return fmt.Sprintf("%s.%s %s %s", l.Tbl, l.Col, l.Op, Lit(l.Val))
+}
 
 type jQuery struct {
 	Tables []string    // join order as written
@@ -329,7 +337,7 @@ func c11WideQueries(name string) []*jQuery {
 			on = [4]string{"r", "k2", "lw", "k"}
 		}
 		for _, sel := range [][][2]string{nil, {{"lw", "s"}, {"r", "b"}}, {{"r", "b"}, {"lw", "k"}}} {
-			for _, wh := range [][]jLeaf{nil, {{"lw", "k", "=", one}}, {{"r", "b", ">=", int32(10)}}} {
+			for _, wh := range [][]jLeaf{nil, {{"lw", "k", "=", one, false}}, {{"r", "b", ">=", int32(10), false}}} {
 				qs = append(qs, &jQuery{Tables: order, On: [][4]string{on}, OnInWhere: []bool{false}, Where: wh, Sel: sel})
 			}
 		}
@@ -360,7 +368,7 @@ func c11Queries(tables []string, thorough bool) []*jQuery {
 			for _, c := range defs[t].Cols {
 				for _, op := range []string{"=", "<", ">="} {
 					for _, v := range []int32{1, 2, 10} {
-						leaves = append(leaves, jLeaf{t, c.Name, op, v})
+						leaves = append(leaves, jLeaf{t, c.Name, op, v, false})
 					}
 				}
 			}
@@ -379,6 +387,13 @@ func c11Queries(tables []string, thorough bool) []*jQuery {
 				if n%step == 0 {
 					wheres = append(wheres, []jLeaf{x, y})
 				}
+			}
+		}
+		// the same filters written as `constant op column`
+		for i, x := range leaves {
+			if i%3 == 0 {
+				x.Flip = true
+				wheres = append(wheres, []jLeaf{x})
 			}
 		}
 		sels := [][][2]string{nil, {{l, lc[0].Name}}, {{r, rc[1].Name}, {l, lc[0].Name}}, {{l, lc[1].Name}, {r, rc[1].Name}, {l, lc[0].Name}}, {{r, rc[0].Name}, {r, rc[1].Name}}}
@@ -417,7 +432,7 @@ func c11Queries(tables []string, thorough bool) []*jQuery {
 	}
 	// three tables: chain l-r-m; the second equality in WHERE (README: an ON clause holds a single condition)
 	for _, on2 := range [][4]string{{"r", "k2", "m", "k3"}, {"l", "k", "m", "k3"}, {"r", "b", "m", "c"}} {
-		for _, wh := range [][]jLeaf{nil, {{"l", "k", ">=", int32(2)}}, {{"m", "k3", "=", int32(1)}, {"r", "b", ">=", int32(10)}}} {
+		for _, wh := range [][]jLeaf{nil, {{"l", "k", ">=", int32(2), false}}, {{"m", "k3", "=", int32(1), false}, {"r", "b", ">=", int32(10), false}}} {
 			for _, s := range [][][2]string{nil, {{"m", "c"}, {"l", "a"}, {"r", "b"}}} {
 				qs = append(qs, &jQuery{Tables: tables, On: [][4]string{{"l", "k", "r", "k2"}, on2}, OnInWhere: []bool{false, true}, Where: wh, Sel: s})
 			}
